@@ -104,8 +104,8 @@ class Session:
         return sorted(kids)
 
     # ---- probing -------------------------------------------------------------
-    def probe(self, out, opdesc):
-        for p in PROBE_PATHS:
+    def probe(self, out, opdesc, only=None):
+        for p in (PROBE_PATHS if only is None else only):
             self.serial += 1
             m = R.method_call(self.serial, None, p, 'x.y', 'M', [])
             r = self.h.cmd('PEER ' + R.encode_message(m).hex())
@@ -133,6 +133,8 @@ class Session:
                 out.append(v)
             if len([v for v in out if not v.resynced]) > 3:
                 return
+        if only is not None:
+            return
         for p in self.paths + ['/zz']:
             r = self.h.cmd('LIST ' + p)
             got = sorted(r.split()[1:]) if r.startswith('OK') else None
@@ -140,9 +142,46 @@ class Session:
             if got != want:
                 out.append(Violation('child-listing', 'list_registered', '%s: children of %s = %r, model %r (registered: %r)' % (opdesc, p, got, want, self.reg), None))
 
+    def around(self, op, out):
+        """The same path dispatched immediately before and immediately after the operation (nothing in between), for the
+        operation's own path and every probe path below it; the operation is undone and redone between candidates, so each
+        candidate also sees the inverse operation between two dispatches.  Whatever the tree remembers from one dispatch
+        must not outlive a change of the registrations."""
+        kind, p = op[0], op[1]
+        if kind in ('reg', 'regfb') and p in self.reg:
+            return
+        cands = [p] + [q for q in PROBE_PATHS if q != p and (q.startswith(p + '/') or p == '/')]
+        before = dict(self.reg)
+        after = dict(self.reg)
+        if kind == 'unreg':
+            fb, handles = after.pop(p)
+            do = 'UNREG ' + p
+            undo = '%s %s %s' % ('REGFB' if fb else 'REG', p, 'h' if handles else 'd')
+        else:
+            after[p] = (kind == 'regfb', op[2] == 'h')
+            do = '%s %s %s' % ('REG' if kind == 'reg' else 'REGFB', p, op[2])
+            undo = 'UNREG ' + p
+        for c in cands:
+            self.probe(out, '%r (before, path %s)' % (op, c), only=[c])
+            r1 = self.h.cmd(do)
+            self.reg = after
+            self.probe(out, '%r (dispatch to %s immediately before and after)' % (op, c), only=[c])
+            r2 = self.h.cmd(undo)
+            self.reg = before
+            self.probe(out, '%r undone (dispatch to %s immediately before and after)' % (op, c), only=[c])
+            self.hit('dispatch-around-operation')
+            if not (r1.startswith('OK') and r2.startswith('OK')):
+                out.append(Violation('register-failed', 'result', '%r / its inverse answered %r / %r' % (op, r1, r2), None))
+            if [v for v in out if not v.resynced]:
+                break
+        self.reg = dict(before)
+
     def apply(self, op):
         out = []
         kind, p = op[0], op[1]
+        self.around(op, out)
+        if [v for v in out if not v.resynced]:
+            return out
         if kind in ('reg', 'regfb'):
             r = self.h.cmd('%s %s %s' % ('REG' if kind == 'reg' else 'REGFB', p, op[2]))
             if p in self.reg:
